@@ -574,6 +574,19 @@ bool Instance::configure_tx_txin() {
         for (size_t i = 0; i < wstack_to_stack; i++) {
             stack.push_back(wstack[i]);
         }
+        // the limits ExecuteWitnessScript applies to the initial stack
+        if (sigver == SigVersion::WITNESS_V0 || sigver == SigVersion::TAPSCRIPT) {
+            if (sigver == SigVersion::TAPSCRIPT && stack.size() > MAX_STACK_SIZE) {
+                fprintf(stderr, "error: %s (the initial stack has %zu items)\n", ScriptErrorString(SCRIPT_ERR_STACK_SIZE).c_str(), stack.size());
+                return false;
+            }
+            for (const auto& item : stack) {
+                if (item.size() > MAX_SCRIPT_ELEMENT_SIZE) {
+                    fprintf(stderr, "error: %s (a witness stack item has %zu bytes)\n", ScriptErrorString(SCRIPT_ERR_PUSH_SIZE).c_str(), item.size());
+                    return false;
+                }
+            }
+        }
     } else {
         // legacy
         sigver = SigVersion::BASE;
